@@ -163,6 +163,10 @@ def cases(ctx):
         ("literal.path.in_kwargs", "Value.items_contain(k={'path': [a]})", [("a", U)]),
         ("literal.path.kwname", "Value.items_contain(path=a)", [("a", U)]),
         ("literal.path.scalar", "Value.equal_to({'path': a})", [("a", "int")]),
+        ("literal.capital.Path", "Value.equal_to({'Path': [a, 2]})", [("a", U)]),
+        ("literal.capital.PATH_first", "Value.equal_to({'PATH.First': [a]})", [("a", U)]),
+        ("literal.capital.in_kwargs", "Value.items_contain(k={'pAtH.length': [a]})", [("a", U)]),
+        ("literal.capital.multi", "Value.equal_to({'x': 1, 'MyPath': a})", [("a", U)]),
         ("literal.multi_key.path_last", "Value.equal_to({'name': 'x', 'path': [a, 2]})", [("a", U)]),
         ("literal.multi_key.path_first", "Value.equal_to({'path': [a, 2], 'name': 'x'})", [("a", U)]),
         ("literal.multi_key.suffix_last", "Value.not_equal_to({'kind': 'len', 'path.length': a, 'n': 0})", [("a", U)]),
